@@ -81,7 +81,8 @@ type c20cWorld struct {
 	h       *k8s.VerifHandlers // the handlers the real k8s.New hands to the reconcilers
 	c       *controller
 	lis     *k8s.Listener
-	storeMu sync.Mutex // the harness's API server: not part of the code under test
+	storeMu sync.Mutex            // the harness's API server: not part of the code under test
+	specs   map[string]vw.SvcSpec // the spec each live service was last written with
 	store   map[string]*v1.Service
 	logMu   sync.Mutex
 	log     []c20cEntry
@@ -117,7 +118,7 @@ func (f c20cClient) UpdateStatus(svc *v1.Service) error {
 }
 
 func newC20cWorld(c c20cCase) (*c20cWorld, error) {
-	w := &c20cWorld{store: map[string]*v1.Service{}}
+	w := &c20cWorld{store: map[string]*v1.Service{}, specs: map[string]vw.SvcSpec{}}
 	w.c = &controller{ips: allocator.New(func(string) {})}
 	w.c.client = c20cClient{w}
 	for _, cl := range c.Configs {
@@ -167,8 +168,10 @@ func (w *c20cWorld) apply(op c20cOp, idx int) string {
 	w.logf(c20cEntry{Kind: "U", Idx: idx})
 	if op.Delete {
 		delete(w.store, key)
+		delete(w.specs, key)
 		return key
 	}
+	w.specs[key] = op.Spec
 	o := w.store[key]
 	if o == nil {
 		o = op.Spec.Object(op.Svc)
@@ -342,6 +345,24 @@ func runC20c(c c20cCase, tr *vw.Trace) *vw.Violation {
 			return vw.Violationf("negative-counter-at-rest", "after all handlers returned pool %s reports %+v", p, ct)
 		}
 	}
+	// at rest no address may be held by two services that may not share it (allocator records and statuses)
+	mem, st := vw.Holders{}, vw.Holders{}
+	for k, sp := range w.specs {
+		if ips := w.c.ips.IPs(k); len(ips) > 0 {
+			mem[k] = vw.HolderOf(sp, ipsToAddrs(ips), w.c.ips.Pool(k))
+		}
+		if o := w.store[k]; o != nil {
+			if as := addrsOf(vw.IngressIPs(o)); len(as) > 0 {
+				st[k] = vw.HolderOf(sp, as, "")
+			}
+		}
+	}
+	if v := exclusive(mem, "allocator-after-concurrent-delivery"); v != nil {
+		return v
+	}
+	if v := exclusive(st, "statuses-after-concurrent-delivery"); v != nil {
+		return v
+	}
 	got := w.final()
 	// serial replay
 	w2, _ := newC20cWorld(c)
@@ -384,5 +405,22 @@ func TestVerifC20Controller(t *testing.T) {
 	vw.Run(t, vw.Options{Property: "C20", Engine: "controller-concurrent",
 		Rule:        "a service goroutine delivers 5..30 service events (4 services: ports, sharing keys, explicit pool / IP, type, deletion) and runs the re-syncs requested, a pool goroutine delivers 1..8 pool configurations (range changes, rename, buggy-address flag), 1..2 goroutines query CountersForPool; through the real Listener, built with -race; final statuses, allocator memory and counters compared with a serial replay in effect order; non-trivial = pool handlers interleaved with service handlers",
 		Assumptions: []string{"workloads whose result is a function of the handler order: one auto-assign pool, explicit pools / addresses otherwise (Allocate iterates a map over unpinned pools)", "interleavings are produced by the Go scheduler, not enumerated"}},
+		genC20c, runC20c)
+}
+
+// The same concurrent workloads decide C01 and C03 for concurrently delivering reconcilers: exclusivity at rest,
+// and assignments that are a function of the order in which the handlers took effect (a service must not lose or
+// change an address because a pool event ran inside its handler).
+func TestVerifC01Concurrent(t *testing.T) {
+	vw.Run(t, vw.Options{Property: "C01", Engine: "controller-concurrent",
+		Rule:        "the concurrent workloads of C20 (service worker(s), pool worker, counter readers through the handlers wired by k8s.New, built with -race): no data race, at rest no address held by two services that may not share it (allocator records and statuses), final state equal to the serial replay in effect order; non-trivial = pool handlers interleaved with service handlers",
+		Assumptions: []string{"interleavings are produced by the Go scheduler, not enumerated"}},
+		genC20c, runC20c)
+}
+
+func TestVerifC03Concurrent(t *testing.T) {
+	vw.Run(t, vw.Options{Property: "C03", Engine: "controller-concurrent",
+		Rule:        "the concurrent workloads of C20: no data race and final statuses / allocator memory equal to the serial replay in effect order (a pool rename or re-grouping delivered while a service is being processed must not cost the service its address); non-trivial = pool handlers interleaved with service handlers",
+		Assumptions: []string{"interleavings are produced by the Go scheduler, not enumerated"}},
 		genC20c, runC20c)
 }
